@@ -51,6 +51,9 @@ pub struct FieldSpec {
     pub filename: Option<String>,
     pub ctype: Option<u8>,
     pub extra_header: bool,
+    /// further `X-Custom: v2`, `v3`, ... lines after the first (a repeated header name)
+    #[serde(default)]
+    pub extra_repeat: u8,
     pub with_len: bool,
     pub content: Content,
 }
@@ -175,6 +178,9 @@ fn render(case: &Case) -> Rendered {
         }
         if f.extra_header {
             body.extend_from_slice(b"X-Custom: v1\r\n");
+            for k in 0..f.extra_repeat {
+                body.extend_from_slice(format!("x-custom: v{}\r\n", k as u32 + 2).as_bytes());
+            }
         }
         if i == 0 && case.mangle == Mangle::BadFieldLength {
             body.extend_from_slice(b"Content-Length: 12abc\r\n");
@@ -206,7 +212,7 @@ struct FieldOut {
     name: String,
     filename: Option<String>,
     ctype: Option<String>,
-    extra: bool,
+    extra: Vec<String>,
     content: Vec<u8>,
     clean: bool,
 }
@@ -274,7 +280,7 @@ fn run_body(case: &Case, body: &[u8], chunks: Vec<Bytes>, end: StreamEnd, spans:
                         name: field.name().unwrap_or("").to_string(),
                         filename: cd.as_ref().and_then(|c| c.get_filename().map(|s| s.to_string())),
                         ctype: field.content_type().map(|m| m.to_string()),
-                        extra: field.headers().contains_key("x-custom"),
+                        extra: field.headers().get_all("x-custom").map(|v| String::from_utf8_lossy(v.as_bytes()).into_owned()).collect(),
                         content: vec![],
                         clean: false,
                     };
@@ -343,7 +349,7 @@ fn expected_fields(case: &Case) -> Vec<FieldOut> {
             name: f.name.clone(),
             filename: f.filename.clone(),
             ctype: f.ctype.map(|c| CTYPES[c as usize % 3].parse::<mime::Mime>().unwrap().to_string()),
-            extra: f.extra_header,
+            extra: if f.extra_header { (0..=f.extra_repeat as u32).map(|k| format!("v{}", k + 1)).collect() } else { vec![] },
             content: content_bytes(&f.content, &case.boundary),
             clean: true,
         })
@@ -578,10 +584,11 @@ fn field_strategy(big: bool) -> impl Strategy<Value = FieldSpec> {
         proptest::option::weighted(0.3, crate::gen::from_chars("abc.txt-019 ", 1, 12).prop_map(|s| s.trim().to_string()).prop_filter("non-empty", |s| !s.is_empty())),
         proptest::option::weighted(0.5, 0u8..3),
         proptest::bool::weighted(0.3),
+        prop_oneof![3 => Just(0u8), 1 => 1u8..4],
         proptest::bool::weighted(0.25),
         content_strategy(big),
     )
-        .prop_map(|(name, filename, ctype, extra_header, with_len, content)| FieldSpec { name, filename, ctype, extra_header, with_len, content })
+        .prop_map(|(name, filename, ctype, extra_header, extra_repeat, with_len, content)| FieldSpec { name, filename, ctype, extra_header, extra_repeat, with_len, content })
 }
 
 fn case_strategy(kind: u8) -> impl Strategy<Value = Case> {
@@ -653,7 +660,7 @@ fn case_strategy(kind: u8) -> impl Strategy<Value = Case> {
 
 pub fn run(cfg: &RunCfg) -> Report {
     let mut rep = Report::new("C15");
-    rep.rule = "bodies rendered from an abstract field list: boundary of 1-70 bchars (quoted or not, incl. '-' and '--'), 0-5 fields with name / filename / content type / extra header / exact per-field Content-Length, contents empty / binary / rich in CR LF '-' / ending in CR, CRLF, '--' / containing CRLF-- + other text, CRLF-- + a strict boundary prefix, the boundary in mid-line, a bare CR + -- + boundary / one long line up to 200 KB, optional preamble and epilogue, form-data or mixed; phase cuts: short bodies delivered whole and with EVERY single cut position; phase truncation: short bodies truncated at EVERY offset (error expected before the final boundary, exact result after it); phase general: whole / 1-byte / random multi-cuts with Pending patterns, buffer limits 256/4096/65536/70000, malformed classes (garbage after the boundary, unterminated header block, nested multipart, non-numeric field length, transport error); \
+    rep.rule = "bodies rendered from an abstract field list: boundary of 1-70 bchars (quoted or not, incl. '-' and '--'), 0-5 fields with name / filename / content type / extra header (optionally repeated 2-4 times with different values) / exact per-field Content-Length, contents empty / binary / rich in CR LF '-' / ending in CR, CRLF, '--' / containing CRLF-- + other text, CRLF-- + a strict boundary prefix, the boundary in mid-line, a bare CR + -- + boundary / one long line up to 200 KB, optional preamble and epilogue, form-data or mixed; phase cuts: short bodies delivered whole and with EVERY single cut position; phase truncation: short bodies truncated at EVERY offset (error expected before the final boundary, exact result after it); phase general: whole / 1-byte / random multi-cuts with Pending patterns, buffer limits 256/4096/65536/70000, malformed classes (garbage after the boundary, unterminated header block, nested multipart, non-numeric field length, transport error); \
                 non-trivial = a cut inside CRLF--boundary, or content with CR/LF/dash look-alikes, or a truncated/malformed body; distinct by hash of the case; evaluations count every (body variant, chunking) run"
         .into();
     rep.assumptions = vec![
